@@ -285,3 +285,42 @@ func init() {
 		)
 	}
 }
+
+// Round seven (N1-1): the lookup (cache Get, then uncached Get) is extracted into a helper with three
+// results (object, found, error). Merged into reconcileObject by the normaliser, the checked object is
+// a merge `phi(nil, nil, X, X)` next to `found = phi(false, false, false, true)` and `err = phi(E1,
+// E2, nil, nil)`; the check runs behind `err == nil` and `found`. C01.R3 judges the values the merge
+// can hold under those guards.
+// NOTE: with the rest of reconcileObject left as it is, the normaliser does not merge but copies the
+// continuation to every return of the helper (tail duplication, two copies of the Check); the two
+// breaking variants below are reported in that form too. The benign counterpart of that form is NOT
+// registered: it raises a false alarm that exists without the N1-1 repair as well (the mutation / write
+// sites of one copy are judged against the Check of the other copy, see TOLERANCE.md) — open.
+func init() {
+	const pr = "internal/controllers/phase_reconciler.go"
+	const wrap = "return nil, fmt.Errorf(\"getting %s: %w\", desiredObj.GroupVersionKind(), err)\n"
+	const old = "\tobjKey := client.ObjectKeyFromObject(desiredObj)\n\tcurrentObj := desiredObj.DeepCopy()\n\terr = r.dynamicCache.Get(ctx, objKey, currentObj)\n\tif err != nil && !apimachineryerrors.IsNotFound(err) {\n\t\t" + wrap +
+		"\t}\n\tif apimachineryerrors.IsNotFound(err) {\n\t\terr = r.uncachedClient.Get(ctx, objKey, currentObj)\n\t\tif err != nil && !apimachineryerrors.IsNotFound(err) {\n\t\t\t" + wrap +
+		"\t\t}\n\t}\n\tif apimachineryerrors.IsNotFound(err) {\n\t\t// The object is not yet present on the cluster,\n"
+	const caller = "\tobjKey := client.ObjectKeyFromObject(desiredObj)\n\tcurrentObj, found, err := r.lookupCurrentObject(ctx, objKey, desiredObj)\n\tif err != nil {\n\t\treturn nil, err\n\t}\n\tif !found {\n\t\t// The object is not yet present on the cluster,\n"
+	const anchor = "type CommonObjectPhaseError struct {"
+	const hwrap = "return nil, false, fmt.Errorf(\"getting %s: %w\", desiredObj.GroupVersionKind(), err)\n"
+	helper := func(pre, foundObj string) string {
+		return "func (r *PhaseReconciler) lookupCurrentObject(\n\tctx context.Context, objKey client.ObjectKey, desiredObj *unstructured.Unstructured,\n" +
+			") (currentObj *unstructured.Unstructured, found bool, err error) {\n\tcurrentObj = desiredObj.DeepCopy()\n" + pre +
+			"\terr = r.dynamicCache.Get(ctx, objKey, currentObj)\n\tif err != nil && !apimachineryerrors.IsNotFound(err) {\n\t\t" + hwrap +
+			"\t}\n\tif apimachineryerrors.IsNotFound(err) {\n\t\terr = r.uncachedClient.Get(ctx, objKey, currentObj)\n\t\tif err != nil && !apimachineryerrors.IsNotFound(err) {\n\t\t\t" + hwrap +
+			"\t\t}\n\t}\n\tif apimachineryerrors.IsNotFound(err) {\n\t\treturn currentObj, false, nil\n\t}\n\treturn " + foundObj + ", true, nil\n}\n\n" + anchor
+	}
+	const rule = "C01.R3@(*internal/controllers.PhaseReconciler).reconcileObject#checker-inspects-read-object"
+	addMutants(
+		Mutant{Prop: "C01", Name: "r3-lookup-helper-hands-out-desired-object", File: pr, Old: old, New: caller,
+			More:   []Edit{{File: pr, Old: anchor, New: helper("", "desiredObj")}},
+			Why:    "on the found path the helper hands out the desired object: the checker judges the manifest, not the object on the cluster",
+			Expect: []string{rule}},
+		Mutant{Prop: "C01", Name: "r3-lookup-helper-found-without-asking", File: pr, Old: old, New: caller,
+			More:   []Edit{{File: pr, Old: anchor, New: helper("\tif len(desiredObj.GetOwnerReferences()) > 0 {\n\t\treturn currentObj, true, nil\n\t}\n", "currentObj")}},
+			Why:    "found is answered for a copy of the desired object that no Get has filled",
+			Expect: []string{rule}},
+	)
+}
